@@ -28,7 +28,10 @@ def sh(cmd, **kw):
 
 
 def run_demo(binary, demo, cwd):
-    p = subprocess.run([binary, os.path.basename(demo)], cwd=cwd, env={}, stdin=subprocess.DEVNULL, stdout=subprocess.PIPE, stderr=subprocess.PIPE, timeout=60)
+    try:
+        p = subprocess.run([binary, os.path.basename(demo)], cwd=cwd, env={}, stdin=subprocess.DEVNULL, stdout=subprocess.PIPE, stderr=subprocess.PIPE, timeout=20)
+    except subprocess.TimeoutExpired:
+        return {"exit": "timeout (20 s)", "stdout": "", "stderr": ""}
     return {"exit": p.returncode, "stdout": p.stdout.decode("utf-8", "replace"), "stderr": p.stderr.decode("utf-8", "replace")}
 
 
